@@ -153,8 +153,10 @@ def autoRead (s : Stack) (r : Resp) : Resp × List Ev :=
   match r.http with
   | some h =>
     if r.err = none ∧ s.autoRead = true ∧ autoReadStatus h.status = true then
-      if h.readOK then ({ r with bodyCached := true }, [])
-      else ({ r with bodyCached := true, err := some .read }, [.raised .read])
+      -- `resp.ToBytes()`: the return value is ignored; a failure is in `resp.Err` because ToBytes records it
+      match h.acqErr with
+      | none => ({ r with bodyCached := true }, [])
+      | some e => ({ r with bodyCached := h.acqBody, err := some e }, [.raised e])
     else (r, [])
   | none => (r, [])
 
